@@ -57,7 +57,7 @@ def specs_for(t, rnd):
             bgk = rnd.choice(["tuple", "hex6", "rgbfn"])
             out.append(dict(text=spell_variant(a, kind, k, rnd), bg=pairs.spell(b, bgk, rnd), large=bool(rnd.getrandbits(1)),
                             spell=kind, runs=[(mode, bool(j & 1)), ((mode + 1) % 3, not (j & 1))] + ([(mode, bool(j & 1), True)] if j % 3 == 0 else []),
-                            ref=True, chain=False, mustParse=True))
+                            ref=True, chain=False, mustParse=kind != "rgbfnopen"))      # (an unclosed function is accepted, not documented)
             k += 1
     # every one of the 4,096 three-digit hex colours as text (quick: one background each; thorough: four)
     for v in range(4096):
